@@ -26,3 +26,10 @@ Proof. exact int_roundtrip. Qed.
 (* non-vacuity: a clean string with an apostrophe, a double quote, a semicolon and a line feed; quoting doubles the apostrophe *)
 Example C06_premise_satisfiable : clean [105; 116; 39; 115; 32; 34; 59; 10] = true /\ quote SQ [105; 116; 39; 115] = [39; 105; 116; 39; 39; 115; 39].
 Proof. vm_compute. auto. Qed.
+
+(* listed findings C06:backslash and C06:carriage-return at model level (outside `clean`): the parse action evaluates the token text as a Python literal,
+   so the two characters backslash n become a line feed, a trailing backslash is an error (raised as a non-parse exception), a carriage return a line feed *)
+Theorem C06_escape_evaluation_refuted :
+  clean [97; 92; 110; 98]%N = false /\ single_literal (quote SQ [97; 92; 110; 98]%N) = Ok [97; 10; 98]%N /\
+  single_literal (quote SQ [97; 92]%N) = Err /\ single_literal (quote SQ [97; 13; 98]%N) = Ok [97; 10; 98]%N.
+Proof. vm_compute. repeat split; reflexivity. Qed.
